@@ -1,11 +1,14 @@
 (* C17 - the language server's document copy tracks the editor through any edit sequence.
    Statements only; each is closed by [exact].
    model.DocEdit : Document (cmd/templ/lspcmd/proxy/documentcontents.go) and the document bookkeeping of
-                   Server.DidOpen / Server.DidChange;   spec.Splice : the editor's buffer as a byte splice. *)
+                   Server.DidOpen / Server.DidChange;   spec.Splice : the editor's buffer as a byte splice.
+   model.DocWire : the notifications as they arrive on the wire (lsp/protocol serverDispatch decoding
+                   didOpen / didChange / didClose params) and the per-URI map DocumentContents;
+                   spec.SpliceWire : the editor's open buffers after a stream of notifications. *)
 From Coq.Strings Require Import Byte String.
 From Coq Require Import List NArith Lia.
 Import ListNotations.
-From V Require Import lib.Bytes lib.Lsp spec.Splice model.DocEdit proofs.DocEditProof.
+From V Require Import lib.Bytes lib.Lsp lib.LspWire spec.Splice spec.SpliceWire model.DocEdit model.DocWire proofs.DocEditProof proofs.DocWireProof.
 Local Open Scope nat_scope.
 
 (* One content change.  For every line array d that is a document (non-empty, no LF inside a line - what
@@ -44,6 +47,24 @@ Theorem C17_history_tracks_editor : forall (s0 : bytes) (es : list event),
   doc_string (server_doc s0 es) = editor_text s0 es.
 Proof. exact history_tracks_editor. Qed.
 Print Assumptions C17_history_tracks_editor.
+
+(* The wire, one change: the change handed to Document.Apply for an element of contentChanges has exactly the
+   range that element's own JSON carries (none when the member is absent or null), so applying it is the
+   editor's meaning of that element. *)
+Theorem C17_wire_change_is_its_json : forall (s : bytes) (w : wchange),
+  edit_change s (decode_change w) = wire_edit s w.
+Proof. exact decode_edit. Qed.
+Print Assumptions C17_wire_change_is_its_json.
+
+(* The wire, any stream: didOpen / didChange / didClose notifications about any URIs in any order, each
+   didChange carrying any list of elements (range absent, null or present and valid; rangeLength anything).
+   At every URI the server holds a copy exactly when the editor has the buffer open, and the copy is the
+   editor's text. *)
+Theorem C17_wire_history_tracks_editor : forall (ns : list note) (u : bytes),
+  Forall note_valid ns ->
+  option_map doc_string (server_contents ns u) = editor_buffers ns u.
+Proof. exact wire_history_tracks_editor. Qed.
+Print Assumptions C17_wire_history_tracks_editor.
 
 (* After normalize every line/column used to index Document.Lines is inside the array (no slice panic). *)
 Theorem C17_normalize_in_range : forall (d : list bytes) (p : pos), d <> [] ->
@@ -84,3 +105,25 @@ Example C17_old_predicate_refuted_replace :
   doc_string (apply_with is_whole_document_old (new_document (bs "ab" ++ [nl] ++ bs "cd")) (R 0 0 0 2) (bs "X"))
   <> edit (bs "ab" ++ [nl] ++ bs "cd") (R 0 0 0 2) (bs "X").
 Proof. exact old_predicate_refuted_replace. Qed.
+
+(* ---- the wire: non-vacuity (two URIs interleaved, ranged then full text without / with null range, close,
+        re-open) and the refutation of a decoder that reuses the previous notification's slots ---- *)
+Definition uA : bytes := bs "file:///a.templ".
+Definition uB : bytes := bs "file:///b.templ".
+Definition wr (r : option range) (t : bytes) : wchange :=
+  {| wrange := match r with Some r => Present r | None => Absent end; wrange_length := Absent; wtext := t |}.
+Definition stream1 : list note :=
+  [DidOpen uA (bs "ab"); DidOpen uB (bs "cd"); DidChange uA [wr (R 0 1 0 1) (bs "x")];
+   DidChange uB [wr (R 0 0 0 1) []; {| wrange := Null; wrange_length := Present 7%N; wtext := bs "Z" |}];
+   DidChange uA [wr None (bs "Q")]; DidClose uB].
+Example C17_ex_wire : Forall note_valid stream1
+  /\ editor_buffers stream1 uA = Some (bs "Q") /\ editor_buffers stream1 uB = None
+  /\ editor_buffers (firstn 4 stream1) uA = Some (bs "axb") /\ editor_buffers (firstn 4 stream1) uB = Some (bs "Z").
+Proof. split; [repeat constructor; cbn; lia|vm_compute; repeat split; reflexivity]. Qed.
+Lemma C17_reused_slot_refuted : exists (s : bytes) (prev : change) (w : wchange),
+  wchange_valid w /\
+  doc_string (apply_change (new_document s) (decode_into (Some prev) w)) <> wire_edit s w.
+Proof.
+  exists (bs "ab"), {| crange := R 0 1 0 1; ctext := bs "x" |}, {| wrange := Absent; wrange_length := Absent; wtext := bs "Z" |}.
+  split; [exact I|exact reused_slot_refuted].
+Qed.
